@@ -144,16 +144,19 @@ pub fn judge(case: &Case, stats: &mut Stats) -> (Judgement, Option<Outcome>) {
             "a file was loaded while already being loaded, but the compilation succeeded".into(),
         ),
         (Res::Err { text, class }, true) => {
-            // resolution failures are C04's business; a parse error means the generated
-            // syntax is not understood by this rsass, which says nothing about loading
-            let not_found_text = text.contains("find stylesheet") || text.contains("not found");
-            if (not_found_text && resolution_failed(&o.history)) || *class == ErrClass::Parse {
+            // Every load of a generated graph resolves to an existing file by construction, and the
+            // unchanged tree never answers "not found" here (0 of 60 000 runs), so a reachable cycle
+            // must surface as a loop error and nothing else - also not as a "can't find" raised after
+            // the loop error was dropped on the way up.  Only a parse error (generated syntax not
+            // understood by this rsass) says nothing about loading.
+            if *class == ErrClass::Parse {
                 stats.inc("other_error");
                 Judgement::Unjudged("other_error")
             } else {
+                let not_found = text.contains("find stylesheet") || text.contains("not found");
                 Judgement::fail(
                     "loop_not_reported",
-                    sig.clone(),
+                    format!("{sig} got={} lookup_missed_last={}", if not_found { "not_found" } else { "other_error" }, u8::from(resolution_failed(&o.history))),
                     format!("cycle reported as something else than a loop error: {}", o.res.short()),
                 )
             }
